@@ -311,8 +311,8 @@ func (w *World) describe() any {
 		for _, op := range p.CProg {
 			d.CProg = append(d.CProg, fmt.Sprintf("%s:%d", op.Op, op.Arg))
 		}
-		d.Knobs = fmt.Sprintf("upwin=%d downwin=%d upfrag=%d downfrag=%d autoflush=%v lazy=%v postaccept=%d downcut=%d upcut=%d failwrite=%d deadline=%v canceltask=%v split=%v",
-			p.K.UpWindow, p.K.DownWindow, p.K.UpFrag, p.K.DownFrag, p.K.AutoFlush, p.K.Lazy, p.K.PostAccept, p.K.DownCutAt, p.K.UpCutAt, p.K.FailWriteAt, p.Deadline, p.CancelTask, p.Split)
+		d.Knobs = fmt.Sprintf("upwin=%d downwin=%d upfrag=%d downfrag=%d autoflush=%v lazy=%v postaccept=%d downcut=%d upcut=%d failwrite=%d deadline=%v canceltask=%v split=%v noflusher=%v",
+			p.K.UpWindow, p.K.DownWindow, p.K.UpFrag, p.K.DownFrag, p.K.AutoFlush, p.K.Lazy, p.K.PostAccept, p.K.DownCutAt, p.K.UpCutAt, p.K.FailWriteAt, p.Deadline, p.CancelTask, p.Split, p.K.NoFlusher)
 		d.Outcome = fmt.Sprintf("final=%v recv=%d hrecv=%d", o.Final, len(o.Recv), len(o.H.Recv))
 		out = append(out, d)
 	}
